@@ -7,6 +7,7 @@ import (
 
 func init() {
 	vpHarnesses["vpH_C07_schedules"] = vpH_C07_schedules
+	vpHarnesses["vpH_C07_slowreader"] = vpH_C07_slowreader
 }
 
 // C07 over schedules (bounded): three connections drive the real router.recv
@@ -138,4 +139,50 @@ func vpDrainEvents(ch chan ServerMsg) []*ServerEventMsg {
 		}
 	}
 	return out
+}
+
+// C07, last clause, over ALL schedules of a small scenario: subscription t's buffer (1)
+// is full; the publisher publishes e1 while t's reader takes one message. Whatever the
+// interleaving, the publisher must come back (a goroutine left blocked is reported as
+// blocked:C07.publisher-delayed), the reader gets e0 first, and e1 is either delivered
+// after it or dropped as t's own overflow; nothing else.
+func vpH_C07_slowreader() {
+	if !vpSymbolic() {
+		vpReach("end")
+		return
+	}
+	router := NewRouterHandler(1)
+	ctx := context.Background()
+	chT, chP := make(chan ServerMsg, 1), make(chan ServerMsg, 1)
+	e0 := &Event{ID: "e0", Kind: 1, Tags: []Tag{}}
+	e1 := &Event{ID: "e1", Kind: 1, Tags: []Tag{}}
+	router.recv(ctx, "conn-T", &ClientReqMsg{SubscriptionID: "t", ReqFilters: []*ReqFilter{{}}}, chT)
+	if len(chT) > 0 { // an EOSE queued on the connection's channel is read by the client first
+		<-chT
+	}
+	router.recv(ctx, "conn-P", &ClientEventMsg{Event: e0}, chP)
+	vpAssert(len(chT) == 1, "C07.slowreader-first-event-delivered")
+	vpBlockedIsViolation("blocked:C07.publisher-delayed")
+	vpPreempt(100)
+	var first ServerMsg
+	var wg sync.WaitGroup
+	wg.Add(2)
+	go func() {
+		defer wg.Done()
+		router.recv(ctx, "conn-P", &ClientEventMsg{Event: e1}, chP)
+	}()
+	go func() {
+		defer wg.Done()
+		first = <-chT
+	}()
+	wg.Wait()
+	vpPreempt(0)
+	m0, ok := first.(*ServerEventMsg)
+	vpAssert(ok && m0.Event == e0 && m0.SubscriptionID == "t", "C07.slowreader-publication-order")
+	rest := vpDrainEvents(chT)
+	vpAssert(len(rest) <= 1, "C07.slowreader-at-most-once")
+	if len(rest) == 1 {
+		vpAssert(rest[0].Event == e1 && rest[0].SubscriptionID == "t", "C07.slowreader-publication-order")
+	}
+	vpReach("end")
 }
